@@ -298,6 +298,12 @@ def hostile_bodies(rng, P, quick):
                 + P.stop + P.stop))
     out.append(("required_missing", b"fill", P.fld("struct", 1) + P.stop + P.stop))
     out.append(("required_present", b"fill", P.fld("struct", 1) + P.fld("i32", 7) + P.i32v(-1) + P.stop + P.stop))
+    # many sibling structs (the nesting count must come down again after each): Node.kids = n empty Nodes, twice
+    for n in (1, 63, 64, 65, 200):
+        kids = P.fld("list", 2) + P.lst("struct", n) + P.stop * n
+        out.append(("siblings", b"walk", P.fld("struct", 1) + kids + P.stop + P.stop))
+        out.append(("siblings", b"walk", P.fld("struct", 1) + P.fld("struct", 1) + kids + P.stop
+                    + P.fld("list", 2, 1) + P.lst("struct", n) + P.stop * n + P.stop + P.stop))
     out.append(("empty_args", b"walk", P.stop))
     out.append(("no_stop", b"walk", b""))
     return out
